@@ -198,6 +198,7 @@ type GenOpts struct {
 	Policies         []string // restrict policies
 	BigVal           int
 	MaxOps           int
+	FilterPm         int // permille of eligible modules that get a block filter (0 = default 333)
 }
 
 var allPolicyTypes = [][2]string{
@@ -378,7 +379,11 @@ func GenPackage(r *Rng, o GenOpts) *PkgDef {
 		}
 
 		// block filter
-		if kind != "index" && len(idxs) > 0 && r.Chance(1, 3) {
+		fpm := o.FilterPm
+		if fpm == 0 {
+			fpm = 333
+		}
+		if kind != "index" && len(idxs) > 0 && r.Intn(1000) < fpm {
 			ix := idxs[r.Intn(len(idxs))]
 			if ix.Initial <= m.Initial {
 				e := genExpr(r, ix.Spec.IdxKeys, 2)
